@@ -112,9 +112,17 @@ def new_interp(prog, loop_bound=12):
                     has = len(ents[idx].fields[1].fields[0].fields) > 0
                     sc, g = k.fields[0].s, k.fields[1].s
                     listed = any(e.fields[0].s == sc and any(x.s == g for x in e.fields[1].fields) for e in pg.fields[1].fields)
-                    st.emit('RELEASE', (sc, g), has, listed)
+                    # the reverse index of every actor agrees with this group's membership at that moment as well
+                    fwd = sorted(z3.simplify(x.fields[0].fields[-1].t).as_long() for x in ents[idx].fields[1].fields[0].fields if x.fields[0].variant == 'Local')
+                    rev = []
+                    for e in pg.fields[3].fields:
+                        mx = I.read(st, e.fields[1].cell, ())
+                        inner = I.read(st, st.ghost[('mutex_inner', mx.oid)], ())
+                        if any(x.fields[0].s == sc and x.fields[1].s == g for x in inner.fields[0].fields) and e.fields[0].variant == 'Local':
+                            rev.append(z3.simplify(e.fields[0].fields[-1].t).as_long())
+                    st.emit('RELEASE', (sc, g), has, listed, fwd == sorted(rev))
         except Exception:   # noqa (shape not as expected: the invariant claim is simply not recorded for this release)
-            st.emit('RELEASE', None, None, None)
+            st.emit('RELEASE', None, None, None, None)
         return I.ret(st, UNIT)
     I.type_drops['DashRef'] = release
     prev_occ = I.type_drops.get('OccupiedEntry')
